@@ -521,7 +521,7 @@ func (f *framer) readFrame(r io.Reader, head *frameHeader) error {
 	// assume the underlying reader takes care of timeouts and retries
 	n, err := io.ReadFull(r, f.buf)
 	if err != nil {
-		return fmt.Errorf("unable to read frame body: read %d/%d bytes: %v", n, head.length, err)
+		return fmt.Errorf("unable to read frame body: read %d/%d bytes: %w", n, head.length, err)
 	}
 
 	if head.flags&flagCompress == flagCompress {
